@@ -1034,7 +1034,8 @@ Proof.
   set (bs := if bs0 >? o_high o then o_high o else bs0).
   assert (BS : 0 <= bs <= dsize (o_data o)) by (unfold bs; rewrite Z.gtb_ltb; destruct (Z.ltb_spec (o_high o) bs0); lia).
   pose proof (Hnb eq_refl) as BL0.
-  unfold WInv. cbn. repeat split; auto; lia.
+  unfold WInv. cbn. repeat split; auto; try lia.
+  rewrite flat_dsub by lia. reflexivity.
 Qed.
 
 (* facts about the result code that the action table relies on (writes) *)
